@@ -199,6 +199,22 @@ def r6_pong(ctx):
         masks = [1 for bi, si, pl, rv, ln in pl_.stmts() if rv[0] == 'bin' and rv[1] == 'BitAnd' and any(c[1] == 1 for c in core.consts_in(pl_.expr_of_rvalue(rv)))]
         eqs = [1 for bi, si, pl, rv, ln in pl_.stmts() if rv[0] == 'bin' and rv[1] in ('Eq', 'Ne') and core.contains_call(pl_.expr_of_rvalue(rv), 'frame::head::Head::flag') and not any(x[0] == 'bin' and x[1] == 'BitAnd' for x in walk(pl_.expr_of_rvalue(rv)))]
         r.check(bool(masks) and not eqs, 'load|ack-is-mask', pl_.file, 'Ping::load recognises ACK by masking bit 0 (undefined flag bits are ignored, RFC 9113 §4.1), not by comparing the whole flag octet')
+        # and with the right polarity: the expression stored into Ping.ack, evaluated for all 256 flag octets, is (flags & 1 != 0)
+        acks = []
+        for bi, si, pl, rv, ln in pl_.stmts():
+            if rv[0] == 'aggr' and rv[1] == 'adt' and str(rv[2]).endswith('ping::Ping'):
+                a = F.adts.get(core.norm(rv[2]))
+                names = [y[0] for y in a['variants'][0]['fields']] if a else []
+                if 'ack' in names:
+                    acks.append(pl_.expr_of_op(rv[3][names.index('ack')]))
+        bad = []
+        for e in acks:
+            for b in range(256):
+                v = core.eval_expr(e, lambda x, b=b: b if (x[0] == 'call' and x[1] == 'frame::head::Head::flag') else None)
+                if v is None or bool(v) != bool(b & 1):
+                    bad.append(b)
+                    break
+        r.check(bool(acks) and not bad, 'load|ack-table', pl_.file, 'Ping.ack = (flags & 0x1 != 0) for all 256 flag octets%s' % ('' if not bad else ' -- differs at 0x%02x' % bad[0]))
     pg = r.fn('frame::ping::Ping::pong')
     if pg:
         agg = [pg.expr_of_rvalue(rv) for bi, si, pl, rv, ln in pg.stmts() if pl == [0] and rv[0] == 'aggr']
